@@ -27,13 +27,15 @@ CHECKS = {
              "are built from (Database::get_value, set_value, set_value_version, set_value_as_ok, remove_value, inc_value, db_ops::get_key_value_new, remove_key) "
              "satisfies the plain-map contract of the statement, including 'a refused command changes nothing' and whole-map frames; and that `keys <pattern>` "
              "(the real Database::list_keys with its filter and map closures verbatim, get_function_by_pattern, starts_with / ends_with / contains) lists exactly the live keys "
-             "matching the prefix* / *suffix / contains pattern, each once, sorted, $$ keys only when the caller is entitled to them. "
+             "matching the prefix* / *suffix / contains pattern, each once, sorted, $$ keys only when the caller is entitled to them; and that the REAL dispatcher arms Get / "
+             "GetSafe / Keys, with their closure bodies kept (unit replies), answer - when not refused - with the store's answer for the request's key in the database the session "
+             "selected, resp. with the comma-joined listing of that database for the request's pattern. "
              "Right level because the property is a statement about one data structure; wrong tool for the parser/dispatcher, which is left as glue.",
         level_note="Sequential semantics only (locks elided by extraction rule R2). Trusted: vstd HashMap/String specs, Display for Value prints its value, "
                    "uninterpreted i32<->text with parse(print(n))==Some(n), notify_watchers spec, derive(Clone) gives an equal value. "
                    "Unit listing: the iterator adapters iter/filter/map/collect and Vec::sort are trusted shims (the closures handed to them are the real ones and are "
                    "verified against their own contracts), the fn pointers of get_function_by_pattern are defunctionalised, String order is uninterpreted. "
-                   "NOT decided: parser and dispatcher glue (which flag the Keys arm passes).",
+                   "NOT decided: parser glue; the closure bodies of the WRITING arms (they mutate through a shared &Database, which a Verus closure cannot express).",
     ),
     "C02": dict(
         engine="verus-units", design_ref="DESIGN.md §5 C02", technique="deductive verification (Verus/Z3) of function contracts on extracted real code",
@@ -57,7 +59,8 @@ CHECKS = {
              "administrator session - so Verus rejects any path that reaches the closure without the check; a non-administrator asking for a $$ key gets an "
              "error whatever is stored; Database::remove_value refuses $$token for everybody and changes nothing; the REAL dispatcher arms of get / get-safe / "
              "watch / set / increment / remove (extracted arm by arm, closure bodies abstracted) pass the request's own key through that guard; the real "
-             "Database::list_keys (filter closure verbatim) and filter_system_keys list a $$ key only for a caller entitled to system keys. Bounded Kani "
+             "Database::list_keys (filter closure verbatim) and filter_system_keys list a $$ key only for a caller entitled to system keys, and the real Keys arm (closure body "
+             "kept) asks for system keys exactly for an administrator session. Bounded Kani "
              "harness (thorough tier, not counted): filter_system_keys on 3-byte keys.",
         level_note="Dispatcher arms that bypass the guard (Resolve, Arbiter, rp) are NOT covered and the check does not claim noninterference for them. "
                    "str::starts_with is a trusted prefix test. Sequential semantics. The Kani harness is bounded (3-byte keys) and is not counted as proved.",
